@@ -49,6 +49,7 @@ pub fn edit_r2() -> impl Strategy<Value = Edit> + Clone {
     prop_oneof![
         12 => edit_r1(),
         3 => (any::<u16>(), 0u8..6, 1u8..3).prop_map(|(pos, kind, count)| Edit::InsertFiller { pos, kind, count }),
+        3 => (any::<u16>(), 1u8..7, any::<u16>(), 0u8..5).prop_map(|(pos, count, to, how)| Edit::MoveBlock { pos, count, to, how }),
         1 => Just(Edit::FlipEol),
         1 => Just(Edit::ToggleFinalNewline),
     ]
